@@ -326,6 +326,18 @@ def run(ctx):
             break
     ctx.rules.append("queue-bmixed: 1-4 consumers parked in pop() on an empty bounded queue, then try_pop (must fail at once), pushes, FIFO delivery; mirror image with producers parked on a full queue and try_push")
     ctx.ties.append({"name": "queue-bmixed (oracle only)", "cases": nb, "disagreements": mbad})
+    # an invalid entry (push whose constructor threw) at every position of the page structure
+    rc, lines, err = ctx.run_driver(exe, ["qthrow"], timeout=600)
+    ctx.count(("queue-qthrow",), True, "queue-qthrow")
+    t = (lines or ["no output"])[-1].split()
+    qbad = 0
+    if rc != 0 or len(t) < 4 or t[1] != "0":
+        qbad = 1
+        ctx.add(Finding("violation", "queue-invalid-entry-breaks-fifo", "concurrent_queue / concurrent_bounded_queue, single thread: one push whose element constructor throws at position p among ordinary pushes, then drain, refill and drain "
+                        "twice more; the failing position is swept over 0..599 (8-byte elements) and the corresponding spans for 24 / 72 / 136 / 264-byte elements: %s rc=%s (BADFIFO = positions at which the popped values are not exactly "
+                        "the pushed values in order; FIRST = queue kind * 100000 + position)" % (" ".join(t), rc), {"tie": "queue-qthrow", "args": ["qthrow"]}))
+    ctx.rules.append("queue-qthrow (oracle only): a throwing push at EVERY ticket position (all lanes, first / last slot of a page, five page-size classes, unbounded and bounded queue), then three drain / refill rounds: FIFO of the other values")
+    ctx.ties.append({"name": "queue-qthrow (oracle only)", "cases": 1, "disagreements": qbad})
     # blocked calls around operations that fail with an exception
     nt = ctx.scale(6, 40)
     tbad = 0
